@@ -4,7 +4,7 @@
    every key type whose comparison is a strict weak order (SWO), hence for all six Go tree types (C11). *)
 From Coq Require Import ZArith NArith List Bool.
 From GB Require Import Model Spec Inv Order OrderProof SearchProof SpecLaws InvProof SearchScanProof
-     UpsertProof DeleteProof HistoryProof KeyOrders KnownFindings Conc GI LockInv LockProof ConcProps Frame FrameInv FrameProof SoloProof.
+     UpsertProof DeleteProof HistoryProof KeyOrders KnownFindings Conc GI LockInv LockProof ConcProps Frame FrameInv FrameProof SoloProof CInv CIDef NoDeadlock.
 Import ListNotations.
 Open Scope nat_scope.
 
@@ -370,3 +370,17 @@ Theorem C02_cursor_walks_the_chain :
     (exists th', get_thread t (ths s') = Some th' /\ prog th' = rest).
 Proof. exact solo_scan. Qed.
 Print Assumptions C02_cursor_walks_the_chain.
+
+(* ====================== C06: no deadlock ====================== *)
+
+(* In every state satisfying the concurrent invariant CI2 (global structure GI, the lock table, every program
+   counter consistent with the tree -- executable predicates that the scheduled correspondence evaluates on every
+   step it replays) some thread can move whenever some thread is unfinished: locks are always requested in
+   increasing pre-order position (tree mutex first; parent before child; left sibling before right; a leaf before
+   its chain successor), so no wait-for cycle exists.  That CI2 holds in every reachable state is validated
+   executably (over a million model steps) and is being proved separately; until then this is the partial form. *)
+Theorem C06_no_deadlock_in_invariant_states :
+  forall (K V : Type) (ltb : K -> K -> bool) (order : nat) (s : st K V),
+  CI2 ltb order s -> (exists t, unfinished s t = true) -> exists t, enabled order s t = true.
+Proof. exact ci2_no_deadlock. Qed.
+Print Assumptions C06_no_deadlock_in_invariant_states.
